@@ -684,7 +684,7 @@ func (r *run) withdrawCheck(op string, c, g, u, total int, viaErc bool) func(str
 		}
 		if strings.Contains(res, "insufficient funds") {
 			multi := "single-chain"
-			if nChainsOf(grp) > 1 {
+			if nChainsOf(grp) > 1 || (r.ibc != nil && g == ibcGroup) { // an IBC voucher is one more alias: the escrow is per route
 				multi = "multi-chain"
 			}
 			r.out.Violate(fmt.Sprintf("withdrawal refused for lack of escrowed funds: %s of %s %s token by a holder with sufficient balance", op, multi, kindName(grp.Kind)))
